@@ -205,6 +205,12 @@ pub(super) mod udp {
             } else {
                 match self.codec.decode(src)? {
                     Some((content, addr, session)) => {
+                        // a shadowsocks 2022 packet names the client session it answers: one that was sealed for another session of
+                        // the same key (another binding, another device of the user) does not belong here, wherever it was sent to
+                        if self.kind.is_aead_2022() && session.client_session_id != self.session.client_session_id {
+                            debug!("[udp] drop packet, it answers another client session; session={}", session);
+                            return Ok(None);
+                        }
                         // only shadowsocks 2022 packets carry a packet id; a duplicate or stale one is dropped, the session goes on
                         if self.kind.is_aead_2022()
                             && !self.filters.entry(session.server_session_id).or_insert_with(PacketWindowFilter::default).validate_packet_id(session.packet_id, u64::MAX)
